@@ -97,7 +97,7 @@ def _period_alts(chars: Sequence[Any], forms: Sequence[Tuple[str, str, Tuple[int
     return out
 
 
-def period_documented(chars: Sequence[Any], ylo: int = 1000, yhi: int = 9998) -> List[Alt]:
+def period_documented(chars: Sequence[Any], ylo: int = 1000, yhi: int = 9999) -> List[Alt]:
     docs = doc_period_templates()
     forms = []
     for ind, tmpls in docs.items():
@@ -109,7 +109,7 @@ def period_documented(chars: Sequence[Any], ylo: int = 1000, yhi: int = 9998) ->
     return _period_alts(chars, forms, False, ylo, yhi)
 
 
-def period_generous(chars: Sequence[Any], ylo: int = 1000, yhi: int = 9998) -> List[Alt]:
+def period_generous(chars: Sequence[Any], ylo: int = 1000, yhi: int = 9999) -> List[Alt]:
     """documented forms, case-insensitive, plus GENEROUS_EXTRA, after trimming surrounding blanks (every split)."""
     forms = list(TEMPLATES.values()) + GENEROUS_EXTRA
     n = len(chars)
@@ -161,7 +161,7 @@ def _date_at(chars: Sequence[Any], mlen: int, dlen: int, ylo: int, yhi: int) -> 
 
 
 def _time_part(chars: Sequence[Any]) -> Any:
-    """[ T]HH:MM:SS with in-range fields (fraction / timezone suffixes are not enumerated: lengths 9 only)."""
+    """[ T]HH:MM:SS with in-range fields (exactly 9 characters)."""
     if len(chars) != 9:
         return False
     hh, mm, ss = digits_value(chars[1:3]), digits_value(chars[4:6]), digits_value(chars[7:9])
@@ -169,13 +169,26 @@ def _time_part(chars: Sequence[Any]) -> Any:
                Eq(chars[6], 58), _digits(chars[7:9]), Le(hh, 23), Le(mm, 59), Le(ss, 59))
 
 
+# docs/data_types.rst, Date: "A time component, when present, must be a complete HH:MM:SS (T or space separator). An
+# optional timezone suffix (Z or +-HH:MM) is accepted ... Nanosecond precision is truncated to microseconds."
+_TIME_WITH_SUFFIX = r"[ T]([01]\d|2[0-3]):[0-5]\d:[0-5]\d(\.\d+)?([+-]\d{2}:\d{2}|Z)?"
+
+
+def _time_part_ext(chars: Sequence[Any]) -> Any:
+    """the documented time component including the optional fraction and timezone suffix (any length >= 9)."""
+    if len(chars) < 9:
+        return False
+    from vc import regexvc
+    return regexvc.fullmatch(_TIME_WITH_SUFFIX, list(chars))
+
+
 def date_documented(chars: Sequence[Any], ylo: int = 1800, yhi: int = 9999) -> List[Alt]:
     out: List[Alt] = []
     cond, z, ln = _date_at(chars, 2, 2, ylo, yhi)
     if len(chars) == ln:
         out.append((cond, (z, False)))
-    elif len(chars) == ln + 9:
-        out.append((And(cond, _time_part(chars[ln:])), (z, True)))
+    elif len(chars) >= ln + 9:
+        out.append((And(cond, _time_part_ext(chars[ln:])), (z, True)))
     return out
 
 
@@ -186,15 +199,15 @@ def date_generous(chars: Sequence[Any], ylo: int = 1800, yhi: int = 9999) -> Lis
             cond, z, ln = _date_at(chars, mlen, dlen, ylo, yhi)
             if len(chars) == ln:
                 out.append((cond, (z, False)))
-            elif len(chars) == ln + 9:
-                out.append((And(cond, _time_part(chars[ln:])), (z, True)))
+            elif len(chars) >= ln + 9:
+                out.append((And(cond, _time_part_ext(chars[ln:])), (z, True)))
     return out
 
 
 # ------------------------------------------------------------------------------------------------------------------
 # Time (interval)   denotation: (start days, end days)
 # ------------------------------------------------------------------------------------------------------------------
-def time_documented(chars: Sequence[Any], ylo: int = 1000, yhi: int = 9998) -> List[Alt]:
+def time_documented(chars: Sequence[Any], ylo: int = 1000, yhi: int = 9999) -> List[Alt]:
     n = len(chars)
     out: List[Alt] = []
     if n == 21:
@@ -213,7 +226,7 @@ def time_documented(chars: Sequence[Any], ylo: int = 1000, yhi: int = 9998) -> L
     return out
 
 
-def time_generous(chars: Sequence[Any], ylo: int = 1000, yhi: int = 9998) -> List[Alt]:
+def time_generous(chars: Sequence[Any], ylo: int = 1000, yhi: int = 9999) -> List[Alt]:
     """documented forms + time-of-day parts on either side (the value is still the pair of days) + 1-digit month."""
     n = len(chars)
     out = list(time_documented(chars, ylo, yhi))
